@@ -70,7 +70,15 @@ def observe_guard_calls(name, src, R_opt=None):
     finally:
         R.run = orig
     diags = [(e.name, e.highlights[0].lineno) for e in f.errors if e.name.startswith("HEADER_PROT")]
+    # "accepted" also means: nothing is held against the three lines of the guard themselves
+    guard = name.upper().replace(".", "_")
+    glines = {i + 1 for i, l in enumerate(src.split("\n")) if "".join(l.split()) in ("#ifndef" + guard, "#define" + guard, "#endif")}
+    GUARD_LINE[0] = [(e.name, e.highlights[0].lineno) for e in f.errors if e.level == "Error" and e.highlights[0].lineno in glines
+                     and not e.name.startswith("HEADER_PROT") and e.name not in ("INVALID_HEADER", "LINE_TOO_LONG")]
     return outcome, diags, calls
+
+
+GUARD_LINE = [[]]
 
 
 def names(rng, n):
@@ -166,6 +174,8 @@ def run(res, tier, br, model_ok=True, search=False):
                     res.report("guard:not-analysed", f"{fname} [{vname}]: outcome {outcome}", rp)
                 continue
             codes = {d[0] for d in diags}
+            if want == set() and vname.split("/-R")[0] == "correct" and GUARD_LINE[0]:
+                res.report("guard:spurious", f"{fname} [{vname}]: the correct guard is not accepted: {GUARD_LINE[0][:3]}", rp)
             if want == "none" or want == set():
                 if codes:
                     res.report("guard:spurious" if want == set() else "guard:c-file-checked", f"{fname} [{vname}]: {sorted(codes)}", rp)
@@ -186,11 +196,50 @@ def run(res, tier, br, model_ok=True, search=False):
                 first = first or (rp["name"], rp["variant"], new, prot, str(m)[:200])
         if nbad:
             res.broken.append(f"correspondence guard (rule snapshots): {nbad} disagreements, e.g. {first}")
+    links(res, rng, big)
     # repository samples (.h) through the snapshot correspondence too
     for name, src in [x for x in families.repo_samples() if x[0].endswith(".h")]:
         outcome, diags, calls = observe_guard_calls(name, src)
         res.count("guard.samples", 1)
     res.sample({"guard": variants("libft.h", rng)[1][2][-120:]})
+
+
+def links(res, rng, big):
+    """the guard follows the name the file was GIVEN under: a header reached through a symbolic link is checked against
+    the link's name, a `.c` link to a header text is not checked at all (real command line, JSON report)"""
+    import os, json, shutil, tempfile
+    from impl import main_inprocess
+    mk = lambda g: f"#ifndef {g}\n# define {g}\n\nint\tf(void);\n\n#endif\n"
+    d = tempfile.mkdtemp(prefix="verif_c14_")
+    try:
+        os.makedirs(os.path.join(d, "vendor")); os.makedirs(os.path.join(d, "inc")); os.makedirs(os.path.join(d, "src"))
+        cases = [("list.h", "FT_LIST_H", "inc/ft_list.h", set()), ("other.h", "OTHER_H", "inc/ft_other.h", {"HEADER_PROT_NAME"}),
+                 ("third.h", "THIRD_H", "src/defs.c", "none"), ("up.h", "INC__UP_H", "inc/_up.h", {"HEADER_PROT_NAME"}), ("ok.h", "_OK_H", "inc/_ok.h", set())]
+        for target, g, link, want in cases:
+            open(os.path.join(d, "vendor", target), "w").write(mk(g))
+            os.symlink(os.path.join("..", "vendor", target), os.path.join(d, link))
+        for target, g, link, want in cases:
+            for arg in ([link], [os.path.dirname(link)]):
+                out = main_inprocess(["-f", "json"] + arg, d)
+                res.count("guard.links", 1)
+                res.nontriv(("link", link, tuple(arg)))
+                try:
+                    doc = json.loads(out["stdout"])
+                except Exception:
+                    continue
+                ent = [f for f in doc["files"] if os.path.basename(f["path"]) == os.path.basename(link)]
+                rp = {"kind": "guard-link", "target": target, "guard": g, "link": link, "arg": arg}
+                if len(ent) != 1:
+                    res.report("guard:link-not-reported", f"{link} -> vendor/{target}: {len(ent)} report entries under the link's name; files listed {[f['path'] for f in doc['files']]}", rp)
+                    continue
+                codes = {e["name"] for e in ent[0]["errors"] if e["name"].startswith("HEADER_PROT")}
+                if want == "none" or want == set():
+                    if codes:
+                        res.report("guard:spurious" if want == set() else "guard:c-file-checked", f"{link} -> vendor/{target} (guard {g}): {sorted(codes)}", rp)
+                elif not (want <= codes):
+                    res.report(f"guard:missing-{sorted(want)[0]}", f"{link} -> vendor/{target} (guard {g}): expected {sorted(want)}, got {sorted(codes)}", rp)
+    finally:
+        shutil.rmtree(d, ignore_errors=True)
 
 
 def reproduce(res, k):
@@ -202,6 +251,15 @@ def reproduce(res, k):
 
 
 def replay(rp):
+    if rp.get("kind") == "guard-link":
+        import core
+        r = core.Result("C14", "replay", 0)
+        import random
+        links(r, random.Random(0), True)
+        bad = [v for v in r.violations if v[2].get("link") == rp["link"]]
+        for v in bad:
+            print("VIOLATED:", v[0], v[1][:300])
+        return 1 if bad else 0
     if rp.get("kind") != "guard":
         print("replay names a broken obligation/correspondence:", rp.get("broken"))
         return 1
